@@ -28,7 +28,7 @@ def _own_nodes(F, fn):
     return out
 
 
-def check_typestate(R, E, F, roles, state_adt, fn, paths, rule='C01.I1'):
+def check_typestate(R, E, F, roles, state_adt, fn, paths, rule='C01.I1', only_fair=False):
     table = TYPESTATE.get(state_adt)
     if table is None:
         from lib import CheckerError
@@ -74,6 +74,11 @@ def check_typestate(R, E, F, roles, state_adt, fn, paths, rule='C01.I1'):
         if uses_fair:
             k = E.known(path.facts, ('init', (('P', 'self'), FAIR_FIELD)))
             fair_opts = [bool(k[1])] if k and k[0] == 'eq' else [True, False]
+            if only_fair:
+                # the instance of the rule that belongs to a fairness property: unfair paths are C01's business
+                fair_opts = [f for f in fair_opts if f]
+                if not fair_opts:
+                    continue
         for root, info in nodes.items():
             qname = info['queue']
             tab = table[qname]
